@@ -1013,6 +1013,8 @@ class SizeEval:
                     res = self.ev(clo["body"], env2, "elem", depth)
                     if res.get("__acc") == 1:
                         step = {t: c for t, c in res.items() if t != "__acc"}
+                        # the element's own size is named after the collection, as in the loop form
+                        step = {(("size(%s)" % coll) if t == "size(%s)" % pn[1] else t): c for t, c in step.items()}
                         init = self.ev(e["args"][0], env, sr, depth)
                         if set(step) <= {None}:
                             return lin_add(init, {"len(%s)" % coll: step.get(None, 0)})
@@ -1057,6 +1059,9 @@ class SizeEval:
                     coll = coll[4:-1] if coll.startswith("len(") else coll
                     clo = inner["args"][0]
                     res = self.ev(clo["body"], dict(env), "elem", depth)
+                    pn_ = [nm for p in clo.get("params", []) for nm, _ in hirq.pat_bindings(p)]
+                    if pn_:
+                        res = {(("size(%s)" % coll) if t == "size(%s)" % pn_[0] else t): c for t, c in res.items()}
                     if set(res) <= {None}:
                         return {"len(%s)" % coll: res.get(None, 0)}
                     return {("sum", coll, tuple(sorted(res.items(), key=repr))): 1}
